@@ -29,6 +29,19 @@ impl Scale {
     }
 }
 
+/// Loss / delay budget under which no *legitimate* retransmit exhaustion can occur: a segment is
+/// sent at passes 0, thr, …, max·thr and the connection aborts at pass (max+1)·thr; the pass counter
+/// is not reset when the handshake completes, which can cost the first segment up to thr−1 passes.
+/// With `d` drops and every packet held at most `h` rounds: `2h < (max − d)·thr`.
+pub fn budget(r: &mut Rng, cfg: &Cfg) -> (usize, u32) {
+    let (thr, max) = (cfg.retxthr as usize, cfg.retxmax as usize);
+    let d = r.range(0, max.saturating_sub(1) as u64) as usize;
+    let room = (max - d) * thr; // need 2h < room
+    let hmax = if room == 0 { 0 } else { (room - 1) / 2 };
+    let h = r.range(0, hmax.min(3) as u64) as u32;
+    (d, h)
+}
+
 pub fn bytes(n: usize, salt: u32) -> Vec<u8> {
     (0..n).map(|i| ((i as u32).wrapping_mul(31).wrapping_add(salt * 17 + 1) % 251) as u8).collect()
 }
@@ -194,8 +207,9 @@ pub fn random_xfer(r: &mut Rng, stat: bool) -> Xfer {
     };
     let a = mk(r, 7);
     let b = mk(r, 11);
+    let (max_drops, max_hold) = budget(r, &cfg);
     Xfer {
-        max_drops: cfg.retxmax as usize,
+        max_drops,
         cfg,
         ch,
         sh,
@@ -204,7 +218,7 @@ pub fn random_xfer(r: &mut Rng, stat: bool) -> Xfer {
         port: 9000 + r.below(3) as u16,
         sides: [a, b],
         stat_every_op: stat,
-        max_hold: 2,
+        max_hold,
         allow_dup: false,
         free_rounds: 0,
         max_rounds: 400,
